@@ -2,4 +2,347 @@ import EvoModel.Model.Pairs
 import EvoModel.Lemmas.Argmin
 namespace Evo.Pairs
 
+/-! ### `zip ids ids.tail` -/
+
+theorem chainPairs_length (ids : List Nat) : (chainPairs ids).length = ids.length - 1 := by
+  simp [chainPairs, List.length_zip]
+
+theorem chainPairs_getElem (ids : List Nat) (k : Nat) (h : k < (chainPairs ids).length) :
+    (chainPairs ids)[k] = (ids[k]'(by rw [chainPairs_length] at h; omega),
+                           ids[k+1]'(by rw [chainPairs_length] at h; omega)) := by
+  simp [chainPairs, List.getElem_zip]
+
+theorem mem_chainPairs {ids : List Nat} {p : Nat × Nat} :
+    p ∈ chainPairs ids ↔ ∃ k, ∃ h : k + 1 < ids.length, p = (ids[k], ids[k+1]) := by
+  constructor
+  · intro hp
+    obtain ⟨k, hk, rfl⟩ := List.getElem_of_mem hp
+    have hk' := hk; rw [chainPairs_length] at hk'
+    exact ⟨k, by omega, chainPairs_getElem ids k hk⟩
+  · rintro ⟨k, hk, rfl⟩
+    have hk' : k < (chainPairs ids).length := by rw [chainPairs_length]; omega
+    rw [← chainPairs_getElem ids k hk']
+    exact List.getElem_mem hk'
+
+theorem chainPairs_cons_cons (a b : Nat) (l : List Nat) :
+    chainPairs (a :: b :: l) = (a, b) :: chainPairs (b :: l) := by
+  simp [chainPairs]
+
+theorem isChain_getElem {α} {R : α → α → Prop} {l : List α} (h : l.IsChain R)
+    (k : Nat) (hk : k + 1 < l.length) : R l[k] l[k+1] := by
+  induction l generalizing k with
+  | nil => simp at hk
+  | cons a r ih =>
+    cases r with
+    | nil => simp at hk
+    | cons b r' =>
+      rw [List.isChain_cons_cons] at h
+      cases k with
+      | zero => simpa using h.1
+      | succ k =>
+        have := ih h.2 k (by simp at hk ⊢; omega)
+        simpa using this
+
+/-! ### prefix sums, `accumulated_distances` -/
+
+@[simp] theorem psum_zero (l : List Rat) : psum l 0 = 0 := by simp [psum]
+
+theorem psum_cons_succ (x : Rat) (r : List Rat) (k : Nat) : psum (x :: r) (k + 1) = x + psum r k := by
+  simp [psum]
+
+theorem psum_succ (l : List Rat) (k : Nat) (h : k < l.length) : psum l (k + 1) = psum l k + l[k] := by
+  induction l generalizing k with
+  | nil => simp at h
+  | cons x r ih =>
+    cases k with
+    | zero => simp [psum]
+    | succ k =>
+      have := ih k (by simpa using h)
+      rw [psum_cons_succ, psum_cons_succ, this]
+      simp only [List.getElem_cons_succ]; ring
+
+theorem span_self (l : List Rat) (i : Nat) : span l i i = 0 := by simp [span]
+
+theorem span_add (l : List Rat) (i j k : Nat) : span l i j + span l j k = span l i k := by
+  simp only [span]; ring
+
+theorem span_succ (l : List Rat) (i j : Nat) (h : j < l.length) :
+    span l i (j + 1) = span l i j + l[j] := by
+  simp only [span, psum_succ l j h]; ring
+
+theorem accGo_length (r : List Rat) (c : Rat) : (accGo r c).length = r.length := by
+  induction r generalizing c with
+  | nil => rfl
+  | cons s r ih => simp [accGo, ih]
+
+theorem accGo_getElem (r : List Rat) (c : Rat) (k : Nat) (h : k < (accGo r c).length) :
+    (accGo r c)[k] = c + psum r (k + 1) := by
+  induction r generalizing c k with
+  | nil => simp [accGo] at h
+  | cons s r ih =>
+    cases k with
+    | zero => simp [accGo, psum]
+    | succ k =>
+      simp only [accGo, List.getElem_cons_succ]
+      rw [ih (c + s) k (by simpa [accGo] using h), psum_cons_succ s r (k + 1)]; ring
+
+theorem accDist_length (steps : List Rat) : (accDist steps).length = steps.length + 1 := by
+  simp [accDist, accGo_length]
+
+theorem accDist_getElem (steps : List Rat) (k : Nat) (h : k < (accDist steps).length) :
+    (accDist steps)[k] = psum steps k := by
+  cases k with
+  | zero => simp [accDist]
+  | succ k =>
+    simp only [accDist, List.getElem_cons_succ]
+    rw [accGo_getElem]; ring
+
+/-! ### the greedy loop -/
+
+/-- `b` is the first pose after `a` at which the amount accumulated since `a` reaches `δ` -/
+def Reach (S : Nat → Rat) (δ : Rat) (a b : Nat) : Prop :=
+  a < b ∧ δ ≤ S b - S a ∧ ∀ m, a < m → m < b → S m - S a < δ
+
+theorem reachGo_spec (l : List Rat) (δ : Rat) (r : List Rat) (p s : Nat) (c : Rat)
+    (hr : l.drop p = r) (hsp : s ≤ p) (hc : c = psum l p - psum l s)
+    (hlt : ∀ m, s < m → m ≤ p → psum l m - psum l s < δ) :
+    (s :: reachGo δ r (p + 1) c).IsChain (Reach (psum l) δ) ∧
+    (∀ e ∈ reachGo δ r (p + 1) c, e ≤ l.length) ∧
+    (∀ m, (s :: reachGo δ r (p + 1) c).getLast (by simp) < m → m ≤ l.length →
+        psum l m - psum l ((s :: reachGo δ r (p + 1) c).getLast (by simp)) < δ) := by
+  induction r generalizing p s c with
+  | nil =>
+    have hp : l.length ≤ p := by simpa using hr
+    refine ⟨by simp [reachGo], by simp [reachGo], ?_⟩
+    intro m hm hml
+    simp only [reachGo, List.getLast_singleton] at hm ⊢
+    exact hlt m hm (by omega)
+  | cons x r ih =>
+    have hp : p < l.length := by
+      by_contra hcon
+      have : l.drop p = [] := List.drop_eq_nil_of_le (by omega)
+      rw [this] at hr; cases hr
+    have hx : l[p] = x := by
+      have := List.getElem_drop (xs := l) (i := p) (j := 0) (h := by simpa using hp)
+      simp only [hr, List.getElem_cons_zero, Nat.add_zero] at this
+      exact this.symm
+    have hr' : l.drop (p + 1) = r := by
+      have : l.drop (p + 1) = (l.drop p).tail := by simp [List.tail_drop]
+      rw [this, hr]; rfl
+    have hS : psum l (p + 1) = psum l p + x := by rw [psum_succ l p hp, hx]
+    simp only [reachGo]
+    split
+    · next hge =>
+      obtain ⟨h1, h2, h3⟩ := ih (p + 1) (p + 1) 0 hr' (le_refl _) (by ring)
+        (by intro m h1 h2; omega)
+      refine ⟨?_, ?_, ?_⟩
+      · rw [List.isChain_cons_cons]
+        refine ⟨⟨by omega, ?_, ?_⟩, h1⟩
+        · rw [hS]; rw [hc] at hge; linarith
+        · intro m hm1 hm2; exact hlt m hm1 (by omega)
+      · intro e he
+        rcases List.mem_cons.mp he with rfl | he
+        · omega
+        · exact h2 e he
+      · simpa [List.getLast_cons] using h3
+    · next hlt' =>
+      have hlt'' : c + x < δ := not_le.mp hlt'
+      obtain ⟨h1, h2, h3⟩ := ih (p + 1) s (c + x) hr' (by omega) (by rw [hS, hc]; ring)
+        (by
+          intro m hm1 hm2
+          by_cases hmp : m ≤ p
+          · exact hlt m hm1 hmp
+          · have : m = p + 1 := by omega
+            subst this; rw [hS]; rw [hc] at hlt''; linarith)
+      exact ⟨h1, h2, h3⟩
+
+theorem isChain_of_cons {α} {R : α → α → Prop} {a : α} {l : List α} (h : (a :: l).IsChain R) :
+    l.IsChain R := by
+  cases l with
+  | nil => exact List.IsChain.nil
+  | cons b r => exact (List.isChain_cons_cons.mp h).2
+
+theorem head_reach {S : Nat → Rat} {δ : Rat} {ends : List Nat}
+    (hch : (0 :: ends).IsChain (Reach S δ)) (hne : ends ≠ []) : Reach S δ 0 (ends.head hne) := by
+  cases ends with
+  | nil => exact absurd rfl hne
+  | cons e r => exact (List.isChain_cons_cons.mp hch).1
+
+/-- everything about the emitted end poses of the greedy loop started at pose 0 -/
+theorem ends_spec (l : List Rat) (δ : Rat) :
+    (0 :: reachGo δ l 1 0).IsChain (Reach (psum l) δ) ∧
+    (∀ e ∈ reachGo δ l 1 0, e ≤ l.length) ∧
+    (∀ m, (0 :: reachGo δ l 1 0).getLast (by simp) < m → m ≤ l.length →
+        span l ((0 :: reachGo δ l 1 0).getLast (by simp)) m < δ) := by
+  have := reachGo_spec l δ l 0 0 0 (by simp) (le_refl _) (by simp) (by intro m h1 h2; omega)
+  simpa [span] using this
+
+theorem pathIds_eq (steps : List Rat) (δ : Rat) :
+    pathIds steps δ = if δ ≤ 0 then 0 :: reachGo δ steps 1 0 else reachGo δ steps 1 0 := by
+  simp [pathIds, reachGo]
+
+/-- the list of chain poses of either consecutive selector: the emitted end poses, possibly
+preceded by pose 0 -/
+theorem ids_spec (l : List Rat) (δ : Rat) (ids : List Nat)
+    (hids : ids = 0 :: reachGo δ l 1 0 ∨ ids = reachGo δ l 1 0) :
+    ids.IsChain (Reach (psum l) δ) ∧ (∀ e ∈ ids, e ≤ l.length) ∧
+    (∀ h : ids ≠ [], ∀ m, ids.getLast h < m → m ≤ l.length → span l (ids.getLast h) m < δ) := by
+  obtain ⟨h1, h2, h3⟩ := ends_spec l δ
+  rcases hids with rfl | rfl
+  · refine ⟨h1, ?_, fun _ => h3⟩
+    intro e he
+    rcases List.mem_cons.mp he with rfl | he
+    · omega
+    · exact h2 e he
+  · refine ⟨isChain_of_cons h1, h2, ?_⟩
+    intro h m hm hml
+    have : (0 :: reachGo δ l 1 0).getLast (by simp) = (reachGo δ l 1 0).getLast h :=
+      List.getLast_cons h
+    rw [this] at h3
+    exact h3 m hm hml
+
+theorem chainPairs_getLast_snd (ids : List Nat) (h : chainPairs ids ≠ []) :
+    ((chainPairs ids).getLast h).2 = ids.getLast (by intro hn; simp [hn, chainPairs] at h) := by
+  have hl : 0 < (chainPairs ids).length := List.length_pos_iff.mpr h
+  have hl' := hl; rw [chainPairs_length] at hl'
+  rw [List.getLast_eq_getElem, chainPairs_getElem, List.getLast_eq_getElem]
+  simp only [chainPairs_length]
+  congr 1; omega
+
+theorem chainPairs_head_fst (ids : List Nat) (h : chainPairs ids ≠ []) :
+    ((chainPairs ids).head h).1 = ids.head (by intro hn; simp [hn, chainPairs] at h) := by
+  cases ids with
+  | nil => simp [chainPairs] at h
+  | cons a r =>
+    cases r with
+    | nil => simp [chainPairs] at h
+    | cons b r' => simp [chainPairs]
+
+/-! ### all-pairs path selector -/
+
+theorem mem_pathAll {acc : List Rat} {δ tol : Rat} {i j : Nat} :
+    (i, j) ∈ pairsByPathAll acc δ tol ↔
+      i + 1 < acc.length ∧ ∃ d, (acc.drop (i + 1))[pathCand acc δ i]? = some d ∧
+        ¬ tol < absR (d - acc[i]?.getD 0 - δ) ∧ j = pathCand acc δ i + (i + 1) := by
+  simp only [pairsByPathAll, List.mem_filterMap, List.mem_range]
+  constructor
+  · rintro ⟨a, ha, h⟩
+    split at h
+    · next d hd =>
+      split at h
+      · exact absurd h (by simp)
+      · next hnt =>
+        simp only [Option.some.injEq, Prod.mk.injEq] at h
+        obtain ⟨rfl, rfl⟩ := h
+        exact ⟨by omega, d, hd, hnt, rfl⟩
+    · exact absurd h (by simp)
+  · rintro ⟨hi, d, hd, hnt, rfl⟩
+    refine ⟨i, by omega, ?_⟩
+    simp only [hd]
+    rw [if_neg hnt]
+
+theorem pathCand_spec (acc : List Rat) (δ : Rat) (i : Nat) (hi : i + 1 < acc.length) :
+    ∃ hc : pathCand acc δ i + (i + 1) < acc.length,
+      (∀ k (hk : k < acc.length), i < k →
+        absR (acc[pathCand acc δ i + (i + 1)] - acc[i] - δ) ≤ absR (acc[k] - acc[i] - δ)) ∧
+      (∀ k (hk : k < acc.length), i < k → k < pathCand acc δ i + (i + 1) →
+        absR (acc[pathCand acc δ i + (i + 1)] - acc[i] - δ) < absR (acc[k] - acc[i] - δ)) := by
+  have hne : acc.drop (i + 1) ≠ [] := by
+    intro h; have := List.drop_eq_nil_iff.mp h; omega
+  have hai : acc[i]?.getD 0 = acc[i] := by simp [List.getElem?_eq_getElem (show i < acc.length by omega)]
+  have hpc : pathCand acc δ i = argminFirst (fun d => absR (d - acc[i] - δ)) (acc.drop (i + 1)) := by
+    simp only [pathCand, hai]
+  obtain ⟨hc, hmin, hfirst⟩ :=
+    argminFirst_spec (fun d => absR (d - acc[i] - δ)) (acc.drop (i + 1)) hne
+  simp only [← hpc] at hc hmin hfirst
+  have hlen : (acc.drop (i + 1)).length = acc.length - (i + 1) := List.length_drop
+  have hc' : pathCand acc δ i + (i + 1) < acc.length := by rw [hlen] at hc; omega
+  have hget : ∀ c (h : c < (acc.drop (i + 1)).length),
+      (acc.drop (i + 1))[c] = acc[c + (i + 1)]'(by rw [hlen] at h; omega) := by
+    intro c h; rw [List.getElem_drop]; congr 1; omega
+  refine ⟨hc', ?_, ?_⟩
+  · intro k hk hik
+    have hk' : k - (i + 1) < (acc.drop (i + 1)).length := by rw [hlen]; omega
+    have := hmin (k - (i + 1)) hk'
+    simp only [hget] at this
+    have e : k - (i + 1) + (i + 1) = k := by omega
+    simp only [e] at this
+    exact this
+  · intro k hk hik hkc
+    have hk' : k - (i + 1) < pathCand acc δ i := by omega
+    have := hfirst (k - (i + 1)) hk'
+    simp only [hget] at this
+    have e : k - (i + 1) + (i + 1) = k := by omega
+    simp only [e] at this
+    exact this
+
+theorem pathAll_spec {acc : List Rat} {δ tol : Rat} {i j : Nat}
+    (h : (i, j) ∈ pairsByPathAll acc δ tol) :
+    ∃ (hi : i < acc.length) (hj : j < acc.length), i < j ∧ j = pathCand acc δ i + (i + 1) ∧
+      absR (acc[j] - acc[i] - δ) ≤ tol := by
+  obtain ⟨hi, d, hd, hnt, rfl⟩ := mem_pathAll.mp h
+  obtain ⟨hc, _, _⟩ := pathCand_spec acc δ i hi
+  refine ⟨by omega, hc, by omega, rfl, ?_⟩
+  have hai : acc[i]?.getD 0 = acc[i] := by simp [List.getElem?_eq_getElem (show i < acc.length by omega)]
+  have hlen : (acc.drop (i + 1)).length = acc.length - (i + 1) := List.length_drop
+  have hcl : pathCand acc δ i < (acc.drop (i + 1)).length := by rw [hlen]; omega
+  rw [List.getElem?_eq_getElem hcl] at hd
+  have hd' : d = acc[pathCand acc δ i + (i + 1)] := by
+    have := Option.some.inj hd
+    rw [← this, List.getElem_drop]; congr 1; omega
+  rw [hai, hd'] at hnt
+  exact not_lt.mp hnt
+
+theorem pathAll_complete {acc : List Rat} {δ tol : Rat} {i k : Nat} (hk : k < acc.length)
+    (hik : i < k) (hle : absR (acc[k] - acc[i] - δ) ≤ tol) :
+    (i, pathCand acc δ i + (i + 1)) ∈ pairsByPathAll acc δ tol := by
+  have hi : i + 1 < acc.length := by omega
+  obtain ⟨hc, hmin, _⟩ := pathCand_spec acc δ i hi
+  have hai : acc[i]?.getD 0 = acc[i] := by simp [List.getElem?_eq_getElem (show i < acc.length by omega)]
+  have hlen : (acc.drop (i + 1)).length = acc.length - (i + 1) := List.length_drop
+  have hcl : pathCand acc δ i < (acc.drop (i + 1)).length := by rw [hlen]; omega
+  refine mem_pathAll.mpr ⟨hi, (acc.drop (i + 1))[pathCand acc δ i], List.getElem?_eq_getElem hcl, ?_, rfl⟩
+  have hd' : (acc.drop (i + 1))[pathCand acc δ i] = acc[pathCand acc δ i + (i + 1)] := by
+    rw [List.getElem_drop]; congr 1; omega
+  rw [hai, hd']
+  exact not_lt.mpr (le_trans (hmin k hk hik) hle)
+
+theorem filterMap_range_fst_lt (n : Nat) (f : Nat → Option (Nat × Nat))
+    (hf : ∀ a p, f a = some p → p.1 = a) :
+    (((List.range n).filterMap f).map Prod.fst).Pairwise (· < ·) := by
+  rw [List.pairwise_map, List.pairwise_filterMap]
+  refine List.Pairwise.imp ?_ (List.pairwise_lt_range)
+  intro a b hab p hp q hq
+  rw [hf a p hp, hf b q hq]; exact hab
+
+theorem pathAll_fst_lt (acc : List Rat) (δ tol : Rat) :
+    ((pairsByPathAll acc δ tol).map Prod.fst).Pairwise (· < ·) := by
+  unfold pairsByPathAll
+  apply filterMap_range_fst_lt
+  intro a p hp
+  dsimp only at hp
+  split at hp
+  · split at hp
+    · exact absurd hp (by simp)
+    · simp only [Option.some.injEq] at hp
+      subst hp; rfl
+  · exact absurd hp (by simp)
+
+/-! ### all-pairs angle selector -/
+
+theorem mem_angleAll {ang : Nat → Nat → Rat} {n : Nat} {δ tol : Rat} {i j : Nat} :
+    (i, j) ∈ pairsByAngleAll ang n δ tol ↔
+      i < j ∧ j < n ∧ δ - tol ≤ ang i j ∧ ang i j ≤ δ + tol := by
+  simp only [pairsByAngleAll, List.mem_flatMap, List.mem_range, List.mem_map, List.mem_filter,
+    Bool.and_eq_true, decide_eq_true_eq, Prod.mk.injEq]
+  constructor
+  · rintro ⟨a, ha, k, ⟨hk, h1, h2⟩, rfl, rfl⟩
+    exact ⟨by omega, by omega, h1, h2⟩
+  · rintro ⟨hij, hjn, h1, h2⟩
+    refine ⟨i, by omega, j - (i + 1), ⟨by omega, ?_, ?_⟩, rfl, by omega⟩
+    · have e : j - (i + 1) + (i + 1) = j := by omega
+      rw [e]; exact h1
+    · have e : j - (i + 1) + (i + 1) = j := by omega
+      rw [e]; exact h2
+
 end Evo.Pairs
